@@ -119,13 +119,14 @@ class Chooser:
 
 
 class Explorer:
-    def __init__(self, harness, bound=None, merge=True, max_execs=None, on_exec=None, max_violations=40):
+    def __init__(self, harness, bound=None, merge=True, max_execs=None, on_exec=None, max_violations=40, shard=None):
         self.harness = harness
         self.bound = bound
         self.merge = merge
         self.max_execs = max_execs
         self.on_exec = on_exec
         self.max_violations = max_violations
+        self.shard = shard  # (k, n): of the alternatives of the root execution only those at points i with i % n == k are expanded here
         self.seen = set()
         self.merged = 0
         self.execs = 0
@@ -191,6 +192,8 @@ class Explorer:
                 n, label, costs, kh = ch.points[i]
                 self.points_total += 1
                 self.transitions += 1  # the default alternative, taken by this execution
+                if self.shard is not None and not prefix and i % self.shard[1] != self.shard[0]:
+                    continue
                 for alt in range(1, n):
                     if self.bound is not None and accs[i] + costs[alt] > self.bound:
                         continue
